@@ -264,7 +264,7 @@ func shrinkAndConfirm(p *propCfg, worker, dir string, cases []caseDoc) (caseDoc,
 	var last caseDoc
 	for i := 0; i < 2; i++ {
 		d := clone(cur)
-		res, v, err := replayOnce(worker, sdir, d, true, fmt.Sprintf("confirm%d", i))
+		res, v, err := replayOnce(worker, sdir, d, !nondetCode, fmt.Sprintf("confirm%d", i))
 		if err != nil {
 			return nil, nil, err.Error()
 		}
@@ -275,8 +275,11 @@ func shrinkAndConfirm(p *propCfg, worker, dir string, cases []caseDoc) (caseDoc,
 		hashes = append(hashes, h)
 		last = res
 	}
-	if hashes[0] != hashes[1] {
+	if hashes[0] != hashes[1] && !nondetCode {
 		return nil, nil, "strict replays produced different event logs"
+	}
+	if nondetCode {
+		last["note"] = "the code under test contains nondeterminism the simulator does not own; the violation class reproduced in fresh processes, the exact schedule may not"
 	}
 	last["shrink_replays"] = replays
 	return last, violOf(last), "ok"
